@@ -119,9 +119,11 @@ Proof.
     - cbv zeta. set (i4 := i3 + (pagesize - i3 mod pagesize)).
       pose proof (N.mod_lt i3 pagesize Hp).
       assert (i3 <= i4) by (subst i4; lia).
-      destruct (max2 / i4 <? 2) eqn:E2; repeat split; try lia; try nia.
-      left. apply N.ltb_ge in E2. nia.
-    - repeat split; try lia. destruct Hl2; [right|left]; lia. }
+      assert (i4 <> 0) by lia.
+      destruct (max2 / i4 <? 2) eqn:E2.
+      + repeat split; try lia. 
+      + apply N.ltb_ge in E2. repeat split; try lia; try nia.
+    - repeat split; lia. }
   destruct pr as [i4 a1]. destruct Hpr as (H34 & H40 & Ha10 & Hcase).
   destruct (a1 =? 0) eqn:Ea; [apply N.eqb_eq in Ea; contradiction|].
   destruct (dbl1 FUEL a1 i4 max2) as [a|] eqn:D1; [|discriminate].
@@ -182,8 +184,10 @@ Proof.
   { subst pr. destruct (max2 <? l) eqn:E.
     - cbv zeta. set (i4 := i3 + (pagesize - i3 mod pagesize)).
       pose proof (N.mod_lt i3 pagesize Hp).
-      destruct (max2 / i4 <? 2) eqn:E2; split; try lia; try nia.
-      apply N.ltb_ge in E2. nia.
+      assert (i4 <> 0) by (subst i4; lia).
+      destruct (max2 / i4 <? 2) eqn:E2.
+      + split; [lia|nia].
+      + apply N.ltb_ge in E2. split; [lia|nia].
     - split; lia. }
   destruct pr as [i4 a1]. destruct Hpr as (H40 & H4a).
   destruct (a1 =? 0) eqn:Ea; [discriminate|].
